@@ -30,7 +30,7 @@ from ..ref import refglob
 
 LEVEL = 'exploration'
 MODE = 'thread'
-RULE = ('case 0 = the reference against 16 hand-written expectations; every other case = '
+RULE = ('case 0 = the reference against 22 hand-written expectations; every other case = '
         'one random tree (25-70 entries in the source dir, depth <= 5, names '
         'from a hostile pool, symlinks to directories/files, empty directories; 5-12 '
         'entries under <builddir>/gen; 5-10 under an outside directory) + one generated '
@@ -42,7 +42,12 @@ RULE = ('case 0 = the reference against 16 hand-written expectations; every othe
         'in exactly one argument; every tree also gets up to 3 directory triples {A, B nested '
         'in A, sibling named A + a character below "/" (- . space + , !) + suffix} with files, '
         'and two directed groups per triple whose pattern list has exactly these three bases '
-        '(plus random groups derived from entries below them) (40-60 calls per script; plus "small" cases of 4-9 calls on '
+        '(plus random groups derived from entries below them), and up to 3 symbolic links to '
+        'non-empty directories (relative/absolute targets, sibling/nested/outside tree) with '
+        'one directed group each whose literal prefix ends in or passes through the link '
+        '(sometimes with a second base beside or above it); 15 % of the cases hand the '
+        'source directory itself to bfg9000 through a symlink (configure-into) '
+        '(55-90 calls per script; plus "small" cases of 4-9 calls on '
         '12-30 entries so that the global dist check is not masked by other calls); '
         'distinct = (tree digest, patterns, type, extra, exclude, '
         'find_exclude, filter); non-trivial = the reference selects at least one entry and '
@@ -51,7 +56,9 @@ ASSUMPTIONS = [
     'refglob.py is the reading of doc/reference/builtins.md described in its docstring '
     '(open points are two-sided: hidden names vs wildcards, exclusion of the literal-prefix '
     'directories, filter_by_platform beyond the spelled-out name shapes, anything reached '
-    'through a symlinked directory below the literal prefix)',
+    'through a symlinked directory below the literal prefix; a link inside the literal '
+    'prefix is path resolution and what lies behind it is required unless another pattern '
+    'of the call has its prefix strictly above the link)',
     'an explicit type also governs extra/exclude globs; type="f" with slash-terminated '
     'globs (an input error) is not generated',
     'find_exclude is always set explicitly (documented vs coded default is out of scope)',
@@ -90,7 +97,7 @@ SIMPLE_POOL = ['*.h', '*.hpp', '*~', '.*', '#*#', '.#*', '*.bak', '*.c', '?', '?
 def floors(tier):
     # about half of what seeds 0-2 produce on the unchanged tree
     if tier == 'quick':
-        return {'reference-selfchecks': 16, 'calls-judged': 1800,
+        return {'reference-selfchecks': 22, 'calls-judged': 1800,
                 'entries-compared': 50000, 'selected-must': 7000,
                 'exists-checked': 8000, 'lists-checked-for-duplicates': 1800,
                 'repeat-compared': 450,
@@ -99,7 +106,7 @@ def floors(tier):
                 'prune-verdicts': 6000, 'pruned-dirs-checked': 1500,
                 'dist-entries-checked': 6000, 'real-dist-runs': 3,
                 'distinct_nontrivial': 600}
-    return {'reference-selfchecks': 16, 'calls-judged': 30000,
+    return {'reference-selfchecks': 22, 'calls-judged': 30000,
             'entries-compared': 900000, 'selected-must': 150000,
             'exists-checked': 170000, 'lists-checked-for-duplicates': 30000,
             'repeat-compared': 7000,
@@ -344,6 +351,104 @@ def add_prefix_siblings(rng, tree, count):
     return triples
 
 
+LINK_NAMES = ['vendor', 'lnk2', 'ln.k', 'l k', 'third', 'alias2']
+
+
+def add_symlink_bases(rng, tree, ext, count):
+    """Symbolic links to directories that have content, to be used as (part of)
+    the literal prefix of patterns: relative and absolute targets, a sibling
+    directory, a nested one, one in the outside tree.
+    -> [(link path, [virtual entries below the link])]"""
+    out = []
+    real = [k for k, v in tree.items() if v is None and
+            any(isinstance(tree[o], str) and o.startswith(k + '/') for o in tree)]
+    parents = [''] + [k for k, v in tree.items() if v is None and
+                      not any(refglob.is_glob_component(c) for c in k.split('/'))
+                      and k.count('/') < 2]
+    for _ in range(count):
+        if not real:
+            break
+        parent = rng.choice(parents)
+        name = rng.choice(LINK_NAMES)
+        link = (parent + '/' if parent else '') + name
+        if link in tree:
+            continue
+        kind = rng.choice(['rel', 'rel', 'abs', 'nested', 'ext'])
+        if kind == 'ext':
+            dirs = [k for k, v in ext.items() if v is None and
+                    any(isinstance(ext[o], str) and o.startswith(k + '/')
+                        for o in ext)]
+            if not dirs:
+                kind = 'rel'
+        if kind == 'ext':
+            dest = rng.choice(dirs)
+            tree[link] = ['symlink', '@EXT@/' + dest]
+            src_tree, dest_c = ext, dest.split('/')
+        else:
+            cands = real
+            if kind == 'nested':
+                cands = [k for k in real if parent and k.startswith(parent + '/')
+                         and k.count('/') > parent.count('/') + 1] or real
+            dest = rng.choice(cands)
+            if dest == link or dest.startswith(link + '/'):
+                continue
+            if kind == 'abs':
+                tree[link] = ['symlink', '@SRC@/' + dest]
+            else:
+                tree[link] = ['symlink', os.path.relpath(dest, parent or '.')]
+            src_tree, dest_c = tree, dest.split('/')
+        lc = link.split('/')
+        virt = []
+        for e_comps, isdir in tree_entries(src_tree):
+            if e_comps[:len(dest_c)] == dest_c and len(e_comps) > len(dest_c):
+                # entries behind a further link below the target are not reached
+                inner = ['/'.join(e_comps[:n]) for n in
+                         range(len(dest_c) + 1, len(e_comps))]
+                if any(isinstance(src_tree.get(x), list) for x in inner):
+                    continue
+                virt.append((lc + e_comps[len(dest_c):], isdir))
+        if virt:
+            out.append((link, virt))
+    return out
+
+
+def symlink_base_patterns(rng, ctx, linkinfo):
+    """Patterns whose literal prefix contains the link (as last or as a middle
+    component); sometimes further patterns beside it."""
+    link, virt = linkinfo
+    lc = link.split('/')
+    pats, wants = [], []
+    for _ in range(rng.choice([1, 1, 1, 2])):
+        p = None
+        for _ in range(6):
+            p = derive_pattern(rng, virt, min_prefix=len(lc))
+            if p and p[0].split('/')[:len(lc)] == lc:
+                break
+            p = None
+        if p is None:
+            p = (link + '/' + rng.choice(['*', '*.c', '**/*', '**/*.[ch]']), False)
+        obj = rng.random() < 0.2
+        pats.append({'s': p[0], 'root': 'srcdir' if obj else None, 'obj': obj})
+        wants.append(p[1])
+    r = rng.random()
+    if r < 0.25:
+        # a second base beside (not above) the link
+        sib = [e for e in ctx['src_entries'] if e[0][:1] != lc[:1] and len(e[0]) > 1]
+        p = derive_pattern(rng, sib, min_prefix=1) if sib else None
+        if p:
+            pats.append({'s': p[0], 'root': None, 'obj': False})
+            wants.append(p[1])
+    elif r < 0.35:
+        # a base above the link: what lies behind it is then open (upper bound)
+        p = derive_pattern(rng, ctx['src_entries'])
+        if p:
+            pats.append({'s': p[0], 'root': None, 'obj': False})
+            wants.append(p[1])
+    order = list(range(len(pats)))
+    rng.shuffle(order)
+    return [pats[i] for i in order], [wants[i] for i in order]
+
+
 def directed_patterns(rng, triple):
     """A, sibling and nested base in one list, in random order."""
     a, b, sib = triple
@@ -360,7 +465,7 @@ def directed_patterns(rng, triple):
     return pats
 
 
-def gen_group(rng, g, ctx, small=False, preset=None):
+def gen_group(rng, g, ctx, small=False, preset=None, preset_wants=None):
     """-> list of call dicts (base, repeat, flip, variants)."""
     src_entries, src_dirs = ctx['src_entries'], ctx['src_dirs']
     fe_slash = any(x.endswith('/') for x in ctx['find_exclude'])
@@ -413,7 +518,7 @@ def gen_group(rng, g, ctx, small=False, preset=None):
             pats, wants = [p], [wd]
         npat = len(pats)
     if preset is not None:
-        pats, wants = preset, [False] * len(preset)
+        pats, wants = preset, preset_wants or [False] * len(preset)
         npat = len(pats)
     elif npat > 1 and rng.random() < 0.4:
         # nested bases: a second pattern below (or above) the first one's base
@@ -527,6 +632,7 @@ def gen_case(seed, idx, small):
     triples = add_prefix_siblings(rng, tree, 3 if not small else 2)
     gen = gen_tree(rng, 5, 12, top='gen', max_depth=4)
     ext = gen_tree(rng, 5, 10, max_depth=3, links=False)
+    linkbases = add_symlink_bases(rng, tree, ext, 3 if not small else 2)
     ctx = {
         'find_exclude': rng.choice(FIND_EXCLUDES),
         'src_entries': tree_entries(tree),
@@ -539,16 +645,24 @@ def gen_case(seed, idx, small):
     g = 0
     # directed groups: {A, directory nested in A, sibling "A<char below />..."}
     for t in triples:
-        for _ in range(2 if not small else 1):
-            calls.extend(gen_group(rng, g, ctx, small,
-                                   preset=directed_patterns(rng, t)))
-            g += 1
-    budget = rng.randint(40, 60) if not small else \
-        len(calls) + rng.randint(4, 9)
+        calls.extend(gen_group(rng, g, ctx, small,
+                               preset=directed_patterns(rng, t)))
+        g += 1
+    # directed groups: the literal prefix of the pattern is / goes through a
+    # symbolic link to a directory
+    for li in linkbases:
+        pats, wants = symlink_base_patterns(rng, ctx, li)
+        calls.extend(gen_group(rng, g, ctx, small, preset=pats,
+                               preset_wants=wants))
+        g += 1
+    budget = len(calls) + (rng.randint(28, 40) if not small else
+                           rng.randint(4, 9))
     while len(calls) < budget:
         calls.extend(gen_group(rng, g, ctx, small))
         g += 1
     return {'idx': idx, 'small': small, 'tree': tree, 'gen': gen, 'ext': ext,
+            # the source directory itself is handed to bfg9000 through a symlink
+            'src_via_link': core.rng_for(seed, 'c11srclink', idx).random() < 0.15,
             'find_exclude': ctx['find_exclude'], 'calls': calls,
             # a directory name with ']' (walked directory or literal prefix of a
             # pattern) sends `make` into an endless regenerate loop (escaping in
@@ -574,6 +688,7 @@ SELFCHECK_TREE = {
     'src/sub/deep/d.c': 'x', 'src/.hid.c': 'x', 'src/old~/e.c': 'x',
     'src/x[1].c': 'x', 'src/windows/w.c': 'x', 'src/foo_windows.c': 'x',
     'src/empty': None,
+    'vendor': ['symlink', 'src/sub'], 'src/lnk': ['symlink', 'sub'],
 }
 # (call, find_exclude, expected must, expected may-only), written by hand from
 # doc/reference/builtins.md; directories end with '/'
@@ -585,7 +700,7 @@ SELFCHECK = [
       'src/sub/deep/d.c', 'src/old~/e.c', 'src/windows/w.c'], ['src/.hid.c']),
     ({'patterns': ['src/**/']}, [],
      ['src/', 'src/sub/', 'src/sub/deep/', 'src/old~/', 'src/windows/',
-      'src/empty/'], []),
+      'src/empty/', 'src/lnk/'], []),      # the link is listed, not descended
     ({'patterns': ['src/**/*.c'], 'exclude': ['sub/']}, ['old~/'],
      ['src/a.c', 'src/x[1].c', 'src/foo_windows.c', 'src/windows/w.c'],
      ['src/.hid.c']),
@@ -600,10 +715,19 @@ SELFCHECK = [
     ({'patterns': ['src/?.?']}, [], ['src/a.c', 'src/b.h'], []),
     ({'patterns': ['src/[!a].?']}, [], ['src/b.h'], []),
     ({'patterns': ['src/*'], 'type': 'd'}, [],
-     ['src/sub/', 'src/old~/', 'src/windows/', 'src/empty/'], []),
+     ['src/sub/', 'src/old~/', 'src/windows/', 'src/empty/', 'src/lnk/'], []),
+    # a symbolic link inside the literal prefix is ordinary path resolution
+    ({'patterns': ['vendor/*.c']}, [], ['vendor/c.c'], []),
+    ({'patterns': ['vendor/**/*.c']}, [], ['vendor/c.c', 'vendor/deep/d.c'], []),
+    ({'patterns': ['src/lnk/deep/*.c']}, [], ['src/lnk/deep/d.c'], []),
+    # ... unless another pattern's prefix lies above the link
+    ({'patterns': ['src/*.h', 'src/lnk/*.c']}, [], ['src/b.h'], ['src/lnk/c.c']),
+    ({'patterns': ['README*', 'src/lnk/*.c']}, [], ['README'], ['src/lnk/c.c']),
+    ({'patterns': ['src/sub/*.c', 'src/lnk/*.c']}, [],
+     ['src/sub/c.c', 'src/lnk/c.c'], []),
     ({'patterns': ['src/*', 'R*'], 'type': '*', 'exclude': ['*.c']}, [],
-     ['src/sub/', 'src/old~/', 'src/windows/', 'src/empty/', 'src/b.h',
-      'README'], ['src/.hid.c']),      # upper bound: hidden-name readings mixed
+     ['src/sub/', 'src/old~/', 'src/windows/', 'src/empty/', 'src/lnk/',
+      'src/b.h', 'README'], ['src/.hid.c']),      # upper bound: hidden-name readings mixed
     ({'patterns': ['src/**/*.c'], 'filter': 'platform'}, [],
      ['src/a.c', 'src/x[1].c', 'src/sub/c.c', 'src/sub/deep/d.c',
       'src/old~/e.c'], ['src/.hid.c', 'src/windows/w.c']),
@@ -855,13 +979,24 @@ def _run_case(case, res, scratch):
     ext = os.path.join(scratch, 'ext')
     out = os.path.join(scratch, 'results.jsonl')
     monlog = os.path.join(scratch, 'monlog.jsonl')
-    proj.write_tree(src, case['tree'])
+    def place(tree):
+        return {k: (['symlink', v[1].replace('@SRC@', src).replace('@EXT@', ext)]
+                    if isinstance(v, list) else v) for k, v in tree.items()}
+    proj.write_tree(src, place(case['tree']))
     proj.write_tree(bld, case['gen'])
     proj.write_tree(ext, case['ext'])
     write_script(os.path.join(src, 'build.bfg'), case, out, ext)
     env = core.base_env({'BFG9000_VERIF_MONLOG': monlog}, inject=True,
                         monitors='findmon')
-    rc, output = proj.configure(src, bld, 'make', env=env, timeout=40)
+    if case.get('src_via_link'):
+        # the source directory is given through a symbolic link
+        real_src, src = src, os.path.join(scratch, 'proj-link')
+        os.symlink('proj', src)
+        res.classes.add('srcdir:given-through-symlink')
+        rc, output = proj.configure(src, bld, 'make', env=env, timeout=40,
+                                    sub='configure-into')
+    else:
+        rc, output = proj.configure(src, bld, 'make', env=env, timeout=40)
     calls = case['calls']
     res.evaluations = len(calls)
     res.ev('configures')
@@ -1047,14 +1182,19 @@ def _run_case(case, res, scratch):
         if missing:
             key = missing[0]
             pb = pruned_by(key)
+            rec0 = sel['info'][key]
             if foreign_hit:
                 cause = 'cache-key'
             elif pb:
                 cause = 'pruned:' + pb[0]
+            elif any(m['inc_lo'] and m['base_link'] for m in rec0['pat'].values()):
+                cause = 'literal-prefix-goes-through-symlink'
+            elif os.path.islink(rootdirs[key[0]]):
+                cause = 'root-directory-given-through-symlink'
             else:
                 cause = 'matcher'
             res.violate(('cache', 'foreign-entry-served') if foreign_hit else
-                        ('missing', cause) + pc,
+                        ('missing', cause) + (() if 'symlink' in cause else pc),
                         dict(wit_base, entry=key[1], root=key[0], entry_is_dir=key[2],
                              pruned_directory=pb[1] if pb else None,
                              n_missing=len(missing),
